@@ -46,7 +46,7 @@ SHAPE = (2, 2)
 ENTRIES = ("deepcopy", "create_new_processor", "replace", "update_processor", "build_processors")
 KEYS = ["detector.geometry.total_thickness", "detector.environment.temperature", "detector.characteristics.quantum_efficiency",
         "detector.characteristics.full_well_capacity", "pipeline.photon_collection.m1.arguments.level", "pipeline.photon_collection.m1.arguments.opt",
-        "pipeline.charge_generation.m3.arguments.level", "pipeline.photon_collection.m2.enabled"]
+        "pipeline.charge_generation.m3.arguments.level", "pipeline.photon_collection.m2.enabled", "observation.readout.times"]
 
 
 def bounds(tier):
@@ -57,6 +57,8 @@ def tasks(tier, seed):
     out = []
     for e in ENTRIES:
         for k in (KEYS if e != "deepcopy" else KEYS[:1]):
+            if k.startswith("observation.") and e not in ("create_new_processor", "replace"):
+                continue  # not a calibration variable
             out.append({"fn": "step", "kwargs": {"entry": e, "key": k}, "label": f"{e}/{k}"})
     out.append({"fn": "run_mutating", "kwargs": {"n": 1}, "label": "run/mutating_model/n=1"})
     out.append({"fn": "run_mutating", "kwargs": {"n": 2}, "label": "run/mutating_model/n=2"})
@@ -107,7 +109,14 @@ def _state():
                            ModelFunction(func="vxprobes.probe_a", name="m2", arguments={"level": vx.real("m2_level")}, enabled=True)],
         charge_generation=[ModelFunction(func="vxprobes.probe_b", name="m3", arguments={"level": vx.real("m3_level")}, enabled=True)],
     )
-    return Processor(detector=d, pipeline=pipe)
+    # the running mode the user passed in travels with the processor (exposure-time sweeps address it as `observation.readout.*`)
+    from pyxel.exposure import Readout
+    from pyxel.observation import Observation, ParameterValues
+
+    r0, r1 = vx.real("readout_t0"), vx.real("readout_t1")
+    vx.assume((r0 > 0) & (r0 < r1), "the caller's readout schedule is valid")
+    obs = Observation(parameters=[ParameterValues(key="pipeline.photon_collection.m1.arguments.level", values=[1, 2])], readout=Readout(times=[r0, r1], start_time=0.0))
+    return Processor(detector=d, pipeline=pipe, observation_mode=obs)
 
 
 def _trapped(d):
@@ -136,6 +145,12 @@ def _leaves(proc):
             for k, v in m.arguments._arguments.items():
                 out[f"{grp}.{m.name}.{k}"] = copy.copy(v) if isinstance(v, (list, dict)) else v
             out[f"{grp}.{m.name}.argnames"] = sorted(m.arguments._arguments)
+    if proc.observation is not None:
+        ro = proc.observation.readout
+        out["observation.readout.times"] = list(symnp.asarray(ro._times).elems())
+        out["observation.readout.steps"] = list(symnp.asarray(ro._steps).elems())
+        out["observation.readout.start_time"] = ro._start_time
+        out["observation.readout.non_destructive"] = ro._non_destructive
     return out
 
 
@@ -191,6 +206,12 @@ def _havoc(proc):
                 else:
                     m.arguments._arguments[k] = fresh()
     getattr(proc.pipeline, "photon_collection").models.pop()
+    if proc.observation is not None:
+        ro = proc.observation.readout
+        ro._start_time = fresh()
+        ro._non_destructive = True
+        tt = symnp.asarray(ro._times)
+        tt[0] = fresh()
 
 
 def _value_for(key):
@@ -198,6 +219,10 @@ def _value_for(key):
         return vx.boolean("v")
     if key.endswith(".opt"):
         return [vx.real("v0"), vx.real("v1"), vx.real("v2")]
+    if key.endswith("readout.times"):
+        t = [vx.real("v0"), vx.real("v1"), vx.real("v2")]
+        vx.assume((t[0] > 0) & (t[0] < t[1]) & (t[1] < t[2]), "swept readout times are a valid schedule")
+        return t
     v = vx.real("v")
     fld = key.rsplit(".", 1)[-1]
     if key.startswith("detector.") and fld in RANGE:
@@ -211,6 +236,7 @@ LEAF_OF_KEY = {
     "detector.characteristics.quantum_efficiency": "characteristics.quantum_efficiency", "detector.characteristics.full_well_capacity": "characteristics.full_well_capacity",
     "pipeline.photon_collection.m1.arguments.level": "photon_collection.m1.level", "pipeline.photon_collection.m1.arguments.opt": "photon_collection.m1.opt",
     "pipeline.charge_generation.m3.arguments.level": "charge_generation.m3.level", "pipeline.photon_collection.m2.enabled": "photon_collection.m2.enabled",
+    "observation.readout.times": "observation.readout.times",
 }
 
 
@@ -262,7 +288,8 @@ def step(entry, key):
         newl = _leaves(new)
         vx.prove(f"C06/copy/caller_unchanged_by_copy/{lab}", vx.all_of([_eq(mid[k], before[k]) for k in before]))
         tl = LEAF_OF_KEY.get(target)
-        vx.prove(f"C06/copy/frame/{lab}", vx.all_of([_eq(newl[k], before[k]) for k in before if k != tl]))
+        derived = {"observation.readout.steps"} if tl == "observation.readout.times" else set()  # steps are a function of the times
+        vx.prove(f"C06/copy/frame/{lab}", vx.all_of([_eq(newl[k], before[k]) for k in before if k != tl and k not in derived]))
         if target is not None:
             got = newl[tl]
             if isinstance(got, symnp.SymArray):
@@ -352,7 +379,11 @@ def replay(oid, kwargs, model, data):
         photon_collection=[ModelFunction(func="vxprobes.probe", name="m1", arguments={"level": 0.1, "opt": [0.2, 0.3], "cfg": {"a": 1}}),
                            ModelFunction(func="vxprobes.probe_a", name="m2", arguments={"level": 0.4})],
         charge_generation=[ModelFunction(func="vxprobes.probe_b", name="m3", arguments={"level": 0.5})])
-    proc = Processor(detector=d, pipeline=pipe)
+    from pyxel.exposure import Readout
+    from pyxel.observation import Observation
+
+    proc = Processor(detector=d, pipeline=pipe, observation_mode=Observation(
+        parameters=[ParameterValues(key="pipeline.photon_collection.m1.arguments.level", values=[1, 2])], readout=Readout(times=[1.0, 2.0], start_time=0.0)))
 
     def snap(p_):
         dd = p_.detector
@@ -366,10 +397,12 @@ def replay(oid, kwargs, model, data):
         for grp in ("photon_collection", "charge_generation"):
             for m in getattr(p_.pipeline, grp).models:
                 s[grp + m.name] = (m.enabled, copy.deepcopy(m.arguments._arguments))
+        ro = p_.observation.readout
+        s["readout"] = (np.asarray(ro.times).tolist(), np.asarray(ro._steps).tolist(), float(ro.start_time), bool(ro.non_destructive))
         return s
 
     before = snap(proc)
-    v = [0.7, 0.8, 0.9] if key.endswith(".opt") else (False if key.endswith(".enabled") else 0.6)
+    v = [0.7, 0.8, 0.9] if key.endswith(".opt") else (False if key.endswith(".enabled") else ([5.0, 6.0, 7.0] if key.endswith("readout.times") else 0.6))
     if entry == "deepcopy":
         new = copy.deepcopy(proc)
     elif entry == "create_new_processor":
@@ -395,6 +428,9 @@ def replay(oid, kwargs, model, data):
     dd._memory["counter"] = -1
     dd._memory["new"] = 1
     dd._persistence.trapped_charge_array[...] += 3
+    new.observation.readout._start_time = -5.0
+    new.observation.readout._non_destructive = True
+    new.observation.readout._times[0] = 0.123
     dd.geometry._total_thickness = -5
     dd.environment._temperature = -5
     dd.characteristics._quantum_efficiency = -5
